@@ -18,6 +18,7 @@ REPO = os.environ.get("BTCSIM_REPO", "/repo")
 VERIF = os.path.dirname(os.path.dirname(os.path.abspath(__file__)))
 BUILD = os.environ.get("BTCSIM_BUILD", os.path.join(VERIF, "build"))
 
+PROBE_GROUPS = ["core", "counters", "codehash", "execdata", "phases", "hist", "tce", "next"]
 WRAPS = ["main", "isatty", "fileno", "getenv", "fopen", "exit", "abort", "__assert_fail"]
 
 FLAVOURS = {
@@ -114,7 +115,8 @@ def _ensure_build_locked(flavour, fdir, objdir, verbose):
         for s in srcs[tool]:
             add(tool, os.path.join(REPO, s), cxx)
     add("seam", os.path.join(VERIF, "seam", "seam.cpp"), cxx_seam)
-    add("probe", os.path.join(VERIF, "seam", "probe.cpp"), cxx)
+    for grp in PROBE_GROUPS:
+        add("probe", os.path.join(VERIF, "seam", "probe.cpp"), cxx + ["-DPROBE_GROUP=" + grp, "-DPROBE_" + grp])
 
     flat = []
     seen = {}
@@ -132,27 +134,30 @@ def _ensure_build_locked(flavour, fdir, objdir, verbose):
         objs[(j[0], tuple(j[1]))] = obj
         if obj is None:
             errors.append((src, err))
-    probe_ok = not os.environ.get("BTCSIM_NO_PROBE")      # selftest: behave as if probe.cpp no longer compiled
+    no_probe = bool(os.environ.get("BTCSIM_NO_PROBE"))      # selftest: behave as if probe.cpp no longer compiled
     hard = []
     for src, err in errors:
-        if src.endswith("seam/probe.cpp"):
-            probe_ok = False
-        else:
+        if not src.endswith("seam/probe.cpp"):
             hard.append((src, err))
+    probe_groups = []
+    for j in jobs.get("probe", []):
+        if objs[(j[0], tuple(j[1]))] is not None and not no_probe:
+            probe_groups.append([a for a in j[1] if a.startswith("-DPROBE_GROUP=")][0].split("=")[1])
+    probe_ok = "core" in probe_groups
     if hard:
         raise BuildError("cannot compile the tree:\n" + "\n".join("%s:\n%s" % e for e in hard))
 
     def group_objs(g):
         return [objs[(j[0], tuple(j[1]))] for j in jobs.get(g, [])]
 
-    out = {"white_box": probe_ok, "flavour": flavour}
+    out = {"white_box": probe_ok, "flavour": flavour, "probe_groups": probe_groups if probe_ok else []}
     wrapflags = ["-Wl," + ",".join("--wrap=" + w for w in WRAPS)]
     for tool in ("btcdeb", "tap", "btcc"):
         parts = group_objs(tool) + group_objs("common") + group_objs("seam")
         if tool != "btcc":
             parts += group_objs("kerl")
         if tool == "btcdeb" and probe_ok:
-            parts += group_objs("probe")
+            parts += [o for o in group_objs("probe") if o is not None]
         h = hashlib.sha256("\n".join(sorted(parts)).encode()).hexdigest()[:16]
         exe = os.path.join(fdir, "btcsim-%s-%s" % (tool, h))
         if not os.path.exists(exe):
